@@ -198,7 +198,7 @@ def run_status_ai_report(sonar_missing: bool, az_key: int, az_ep: int, ll_key: i
 
 def run_status(dir_exists: bool, n_sarif: int, t0: int, t1: int, e0: bool, e1: bool, has_sonar: bool, sonar_exists: bool,
                has_dd: bool, dd_exists: bool, az_key: int, az_ep: int, ll_key: int, ll_ep: int,
-               has_output: bool, report_writable: bool, dry_run: bool, empty_name: bool = False, hotspots: bool = False, check_eligibility: bool = False) -> bool:
+               has_output: bool, report_writable: bool, dry_run: bool, empty_name: bool = False, hotspots: bool = False, check_eligibility: bool = False, check_files: bool = False) -> bool:
     """codemodder.run(): the returned status is the documented one for the condition that applies (1: missing
     directory / missing result file / two SARIF inputs of the same tool; 3: inconsistent AI-client settings; 2:
     report cannot be written; else 0); a non-zero status is never returned for a run whose report was written;
@@ -258,6 +258,16 @@ def run_status(dir_exists: bool, n_sarif: int, t0: int, t1: int, e0: bool, e1: b
         ok = ok and WRITTEN == []
     if captured:
         ok = ok and captured[0].dry_run == dry_run
+    if check_files and captured:
+        # C12 (asserted only on behalf of C12's obligation): every result file named on the command line reaches the
+        # execution context under its tool - issues AND hotspots files under "sonar"
+        m = captured[0].tool_result_files_map
+        exp_sonar = ((["J1", ""] if empty_name else ["J1"]) if has_sonar else []) + (["J3"] if hotspots else [])
+        ok = ok and sorted(m.get("sonar", [])) == sorted(exp_sonar) and list(m.get("defectdojo", [])) == (["J2"] if has_dd else [])
+        for i in range(n_sarif):
+            t = EFFECTIVE_TOOL[ENV.sarif_tool["S%d" % i]]
+            if t in (0, 1):
+                ok = ok and ("S%d" % i) in [str(x) for x in m.get("semgrep" if t == 0 else "codeql", [])]
     if check_eligibility and ENV.match_args is not None:
         # C17 (asserted only on behalf of C17's eligibility obligation, never by a C20 obligation): tool-specific codemods are the eligible set exactly when Sonar issue files or SARIF files are supplied
         a, k = ENV.match_args
